@@ -10,8 +10,9 @@ import XpmVerif.Model.Sched
       processes in a coarse version of M3 (wait for the lock / body / exiting / gone), the scheduler-side
       lock protocol of `aio_start` (job lock taken before and released after the launch), and the events
       `crash` (the scheduler process dies at any step: all volatile state is dropped, its locks are
-      released, files and processes survive; a fresh scheduler starts) and `crashAfterSpawn` (it dies
-      inside `aio_run` between `Popen` and the write of the pid file).
+      released, files and processes survive; a fresh scheduler starts), `crashAfterSpawn` (it dies
+      inside `aio_run` between `Popen` and the write of the pid file) and `crashInPrepare` (it dies inside
+      `CommandLineJob.prepare`, leaving the job script absent, broken or ready).
 
     Import-free apart from M2, executable (driver `Drive/C11.lean`). -/
 namespace XpmVerif.Restart
@@ -151,11 +152,17 @@ inductive LockH where
   | free | sched | proc (p : Nat)
   deriving DecidableEq, Repr, Inhabited
 
+/-- the job script `<name>.py` (with `params.json` and its mode bits) as `CommandLineJob.prepare` leaves it -/
+inductive Script where
+  | absent | broken | ready
+  deriving DecidableEq, Repr, Inhabited
+
 /-- the directory of one job identifier -/
 structure Dir where
   done : Bool := false
   pid : Option Nat := none
   lock : LockH := .free
+  script : Script := .absent
   -- ghost counters
   bodies : Nat := 0      -- body starts
   succ : Nat := 0        -- bodies that ended with the success marker
@@ -221,7 +228,9 @@ def world : Hooks Disk :=
     onLaunch := fun d j jb =>
       let p := d.np
       let d := d.spawn jb.ident jb.code
-      { (d.setDir jb.ident { (d.dir jb.ident) with pid := some p }) with procOf := upd d.procOf j p },
+      -- `aio_run`: `prepare` writes params.json, the script and its mode bits from scratch, whatever a dead scheduler
+      -- left there; then spawn and pid file
+      { (d.setDir jb.ident { (d.dir jb.ident) with pid := some p, script := .ready }) with procOf := upd d.procOf j p },
     gate := fun d kind j jb adopted =>
       let dr := d.dir jb.ident
       match kind with
@@ -239,6 +248,7 @@ inductive WEv where
   | proc (p : Nat) (rmPid : Bool)
   | crash
   | crashAfterSpawn (j : Nat)
+  | crashInPrepare (j : Nat) (st : Script)
   deriving Repr
 
 structure W where
@@ -260,6 +270,13 @@ def W.apply (fl : Flags) (w : W) : WEv → W
     let jb := w.a.s.jobs j
     if jb.pc = .lockEnter ∧ (w.a.d.dir jb.ident).lock = .sched then
       W.restart { w with a := { w.a with d := w.a.d.spawn jb.ident jb.code } }
+    else w
+  | .crashInPrepare j st =>
+    -- inside `CommandLineJob.prepare` of job `j` (job lock held, nothing spawned): the script is left absent
+    -- (params.json only), broken (created, not complete or not executable) or ready
+    let jb := w.a.s.jobs j
+    if jb.pc = .lockEnter ∧ (w.a.d.dir jb.ident).lock = .sched then
+      W.restart { w with a := { w.a with d := w.a.d.setDir jb.ident { (w.a.d.dir jb.ident) with script := st } } }
     else w
 
 def W.run (fl : Flags) (w : W) : List WEv → W
